@@ -1,6 +1,6 @@
 (* Model/Dispatch.v -- the single extracted entry point.  op numbers: <property>*100 + k *)
 From Coq Require Import ZArith List Bool.
-From B2Z Require Import Base.Prims Base.Sx Model.Partitions.
+From B2Z Require Import Base.Prims Base.Sx Model.Partitions Model.IndexParse.
 Import ListNotations.
 Open Scope Z_scope.
 
@@ -15,10 +15,65 @@ Definition d_C11 (k : Z) (arg : sx) : sx :=
   | _, _ => err_sx 2
   end.
 
+(* ---- C09 ---- *)
+Definition sx_csi_bin (x : csi_bin) : sx := L [A (cb_id x); A (cb_loff x); of_pairs (cb_chunks x)].
+Definition sx_tbx_bin (x : tbx_bin) : sx := L [A (tb_id x); of_pairs (tb_chunks x)].
+Definition sx_csi (i : csi_index) : sx :=
+  L [A 1; A (ci_min_shift i); A (ci_depth i); of_Zs (ci_aux i);
+     L (map (fun bs => L (map sx_csi_bin bs)) (ci_bins i));
+     of_Zs (map rcount_Z (ci_counts i)); A (ci_n_no_coor i)].
+Definition sx_tbi (i : tbx_index) : sx :=
+  L [A 1; of_Zs (ti_header i); of_ZLL (ti_names i);
+     L (map (fun bs => L (map sx_tbx_bin bs)) (ti_bins i));
+     of_ZLL (ti_linear i); of_Zs (map rcount_Z (ti_counts i)); A (ti_n_no_coor i)].
+Definition un_csi_bin (s : sx) : option csi_bin :=
+  match s with
+  | L [A id; A loff; cs] => match as_PL cs with Some cs => Some {| cb_id := id; cb_loff := loff; cb_chunks := cs |} | None => None end
+  | _ => None end.
+Definition un_tbx_bin (s : sx) : option tbx_bin :=
+  match s with
+  | L [A id; cs] => match as_PL cs with Some cs => Some {| tb_id := id; tb_chunks := cs |} | None => None end
+  | _ => None end.
+Fixpoint mapO {X Y} (f : X -> option Y) (l : list X) : option (list Y) :=
+  match l with
+  | [] => Some []
+  | x :: tl => match f x, mapO f tl with Some y, Some ys => Some (y :: ys) | _, _ => None end
+  end.
+Definition un_list {Y} (f : sx -> option Y) (s : sx) : option (list Y) :=
+  match s with L l => mapO f l | _ => None end.
+Definition un_csi_file (s : sx) : option csi_file :=
+  match s with
+  | L [A ms; A d; aux; contigs; tail] =>
+      match as_ZL aux, un_list (un_list un_csi_bin) contigs, as_optZ tail with
+      | Some aux, Some cs, Some t => Some {| cf_min_shift := ms; cf_depth := d; cf_aux := aux; cf_contigs := cs; cf_tail := t |}
+      | _, _, _ => None end
+  | _ => None end.
+Definition un_tbx_contig (s : sx) : option (list tbx_bin * list Z) :=
+  match s with
+  | L [bins; lin] => match un_list un_tbx_bin bins, as_ZL lin with Some b, Some l => Some (b, l) | _, _ => None end
+  | _ => None end.
+Definition un_tbx_file (s : sx) : option tbx_file :=
+  match s with
+  | L [fmt; names; contigs; tail] =>
+      match as_ZL fmt, as_ZLL names, un_list un_tbx_contig contigs, as_optZ tail with
+      | Some fmt, Some ns, Some cs, Some t => Some {| tf_fmt := fmt; tf_names := ns; tf_contigs := cs; tf_tail := t |}
+      | _, _, _, _ => None end
+  | _ => None end.
+
+Definition d_C09 (k : Z) (arg : sx) : sx :=
+  match k with
+  | 0 => match as_ZL arg with Some b => match parse_csi b with Some i => sx_csi i | None => L [A 0] end | None => err_sx 1 end
+  | 1 => match as_ZL arg with Some b => match parse_tbi b with Some i => sx_tbi i | None => L [A 0] end | None => err_sx 1 end
+  | 2 => match un_csi_file arg with Some f => L [of_Zs (ser_csi f); sx_csi (view_csi f)] | None => err_sx 1 end
+  | 3 => match un_tbx_file arg with Some f => L [of_Zs (ser_tbi f); sx_tbi (view_tbi f)] | None => err_sx 1 end
+  | _ => err_sx 2
+  end.
+
 Definition dispatch (op : Z) (arg : sx) : sx :=
   let p := op / 100 in
   let k := op mod 100 in
   match p with
   | 11 => d_C11 k arg
+  | 9 => d_C09 k arg
   | _ => err_sx 3
   end.
